@@ -20,6 +20,7 @@ import sys
 ROOTNAME = "root"
 SIBNAME = "rootbar"        # sibling of the root whose name has the root's name as a prefix
 MISSING = "nx"             # a name that exists nowhere (only nx.ext does)
+NONUTF = "ro\udcffot"      # a directory in P whose on-disk name b"ro\xffot" is not UTF-8 (as os.fsdecode / children() return it)
 
 # --------------------------------------------------------------------------- path <-> JSON
 
@@ -58,7 +59,7 @@ class Namespace:
     Every file's content names its own location, so a served body identifies the file it came from.
     """
 
-    DIRS = ["P", "P/a", "P/root", "P/root/a", "P/root/a/a", "P/root/a/e", "P/rootbar", "P/rootbar/a"]
+    DIRS = ["P", "P/a", "P/root", "P/root/a", "P/root/a/a", "P/root/a/e", "P/rootbar", "P/rootbar/a", "P/" + NONUTF, "P/" + NONUTF + "/a"]
     FILES = ["P/f", "P/nx.ext", "P/a/f", "P/root/f", "P/root/nx.ext", "P/root/a/f", "P/root/a/index.html",
              "P/root/a/a/f", "P/rootbar/f", "P/rootbar/nx.ext", "P/rootbar/a/f"]
 
@@ -71,6 +72,7 @@ class Namespace:
         self.parent = os.path.join(self.g, "P")
         self.root = os.path.join(self.parent, ROOTNAME)
         self.sibling = os.path.join(self.parent, SIBNAME)
+        self.nonutf = os.path.join(self.parent, NONUTF)
         self.gc = comps(self.g)
         self.dirty = True
 
